@@ -515,6 +515,15 @@ def confirm(L, v):
         v.replay_note = 'replayed natively (observables attached); no model prediction to compare with'
         return
     diffs = {k: (pred[k], nat.get(k)) for k in pred if pred[k] != nat.get(k)}
+    if diffs:
+        try:
+            nat2 = observe(L, dict(sc, wait_ms=4000, hold_ms=800), timeout_s=40)
+            if nat2 is not None:
+                nat = nat2
+                sc['native'] = nat
+                diffs = {k: (pred[k], nat.get(k)) for k in pred if pred[k] != nat.get(k)}
+        except Exception:
+            pass
     v.reproduced = not diffs
     v.replay_note = 'native observables equal the model prediction' if not diffs else 'model/native differ: %r' % (diffs,)
 
